@@ -653,6 +653,10 @@ impl PlainSecretParams {
 
         match typ {
             EskType::V3_4 => {
+                ensure!(
+                    !decrypted_key.is_empty(),
+                    "empty decrypted session key material"
+                );
                 let sym_alg = SymmetricKeyAlgorithm::from(decrypted_key[0]);
                 ensure!(
                     sym_alg != SymmetricKeyAlgorithm::Plaintext,
